@@ -224,6 +224,7 @@ class Pool:
         self.objs = {}      # (cls, id) -> object
         self.ids = {}       # id(object) -> (cls, id)
         self.keep = []
+        self.later = []     # (live dict, items to add once the class exists)
 
     def obj(self, cls, oid):
         if (cls, oid) not in self.objs:
@@ -379,6 +380,12 @@ def fv_fun(k):
     return None if k in (None, "none") else FVALIDATE[0 if k == "true" else k]
 
 
+def apply_later(pool):
+    """mutations of caller-owned mappings after the traits were defined"""
+    for live, extra in pool.later:
+        live.update(extra)
+
+
 def fbound(b):
     return None if b is None else fl_val(b)
 
@@ -419,6 +426,11 @@ def trait(d, pool):
             return Enum(tuple(vals))
         return Enum(vals)
     if k == "DMap":
+        if len(d) > 2 and d[2] == "grow":      # the caller's dict gets its last items AFTER the trait (and class) is defined
+            n0 = d[3]
+            live = {pool.val(a): pool.val(b) for a, b in d[1][:n0]}
+            pool.later.append((live, {pool.val(a): pool.val(b) for a, b in d[1][n0:]}))
+            return Map(live)
         return Map({pool.val(a): pool.val(b) for a, b in d[1]})
     if k == "DTuple":
         if len(d) > 2 and d[2] == "Validated":      # ValidatedTuple(*traits, fvalidate=None | FVALIDATE[k])
